@@ -71,6 +71,12 @@ def create_state_choice_space(
             fixed_inputs={"_period": period},
             jit_filter=jit_filter,
         )
+        if not _filter_mask.any():
+            raise ValueError(
+                "The filters exclude every combination of the variables "
+                f"{vi.query('is_sparse').index.tolist()} in period {period}; at least "
+                "one combination has to be admissible in every period.",
+            )
 
         _combination_grid = create_combination_grid(
             grids=model.grids,
